@@ -280,6 +280,29 @@ def gen_world(rng, n_layers=None, tests_per_layer=(0, 4), kinds=None, p_fault=0.
             else:
                 for t in ts:
                     modules[m]["suites"].append({"t": "leaf", "id": t["id"], "lyr": None if unit else li})
+    if nested:
+        # a test with a layer declaration of its own inside a suite that declares another layer (the nearest declaration
+        # wins - in every process): one or two tests of non-unit layers move, with their declarations, into another
+        # layer's suite (of any module)
+        by_id = {t["id"]: t for t in tests}
+        for _ in range(2):
+            def declaring(nodes):
+                for n_ in nodes:
+                    if n_["t"] == "node":
+                        if n_.get("lyr") is not None and n_["kids"] and n_["kids"][0]["t"] == "leaf":
+                            yield n_
+                        else:
+                            yield from declaring(n_["kids"])
+            hosts = [(m, n_) for m in modnames for n_ in declaring(modules[m]["suites"])]
+            donors = [(m, n_) for m in modnames for n_ in modules[m]["suites"] if n_["t"] == "leaf" and n_.get("lyr") is not None]
+            donors = [(m, n_) for m, n_ in donors if any(h_["lyr"] != n_["lyr"] for _, h_ in hosts)]
+            if not (hosts and donors):
+                break
+            dm, leaf = rng.choice(donors)
+            hm, host = rng.choice([(m, h_) for m, h_ in hosts if h_["lyr"] != leaf["lyr"]])
+            modules[dm]["suites"].remove(leaf)
+            host["kids"].insert(rng.randint(0, len(host["kids"])), leaf)
+            by_id[leaf["id"]]["module"] = hm
     if import_errors and rng.random() < 0.5:
         # how the module fails: at import or in test_suite(), with an ordinary exception or with one that is
         # not an Exception (a module calling sys.exit() when a dependency is missing)
